@@ -793,6 +793,60 @@ func ruleOwnGoroutine(c *Ctx, r *R, op ownedParam, key string, uses []ownUse) {
 		r.violated(key, clo.Pos(), "the goroutine that owns "+op.param.Name()+" does not `defer "+op.param.Name()+".Close()`")
 		return
 	}
+	// seed C09-r12m2: the owning goroutine hands the pull to a goroutine of its own (`go func() { item, err = in[i].Next(ctx) }()`,
+	// then a select with ctx.Done()) - the WaitGroup covers the owner only, so its deferred Close (and the Close of the returned
+	// stream, which waits for the WaitGroup) can run while that Next is still executing
+	for _, nf := range withAnon(clo) {
+		var bad ssa.Instruction
+		instrs(nf, func(_ *ssa.BasicBlock, _ int, in ssa.Instruction) {
+			g, ok := in.(*ssa.Go)
+			if !ok || bad != nil {
+				return
+			}
+			var tgt *ssa.Function
+			if mc2, ok := g.Call.Value.(*ssa.MakeClosure); ok {
+				tgt, _ = mc2.Fn.(*ssa.Function)
+			} else {
+				tgt = staticCallee(&g.Call)
+			}
+			if tgt == nil || tgt.Blocks == nil {
+				return
+			}
+			covered := false
+			for _, y := range tgt.Blocks[0].Instrs {
+				if d, ok := y.(*ssa.Defer); ok {
+					if cal := d.Call.StaticCallee(); cal != nil && fname(cal) == "Done" && cal.Signature.Recv() != nil && isNamedType(cal.Signature.Recv().Type(), "sync", "WaitGroup") {
+						covered = true
+					}
+				}
+			}
+			if covered {
+				return
+			}
+			for _, tf := range withAnon(tgt) {
+				instrs(tf, func(_ *ssa.BasicBlock, _ int, in2 ssa.Instruction) {
+					cc, ok := in2.(ssa.CallInstruction)
+					if !ok || !cc.Common().IsInvoke() {
+						return
+					}
+					switch cc.Common().Method.Name() {
+					case "Next", "Peek", "Close":
+						if it, isI := cc.Common().Value.Type().Underlying().(*types.Interface); isI {
+							for mi := 0; mi < it.NumMethods(); mi++ {
+								if it.Method(mi).Name() == "Next" {
+									bad = in2
+								}
+							}
+						}
+					}
+				})
+			}
+		})
+		if bad != nil {
+			r.violated(key, bad.Pos(), "the goroutine that owns "+op.param.Name()+" lets a goroutine of its own, which no WaitGroup covers, use the stream: the owner's deferred Close - and the Close of the returned stream, which only waits for the owner - can run while that Next is still executing")
+			return
+		}
+	}
 	if deferClose != nil && extraClose != nil {
 		r.violated(key, extraClose.Pos(), "the goroutine that owns "+op.param.Name()+" closes it explicitly here and again through its deferred Close when it returns: a second Close on one path (a Pipe receiver panics on it)")
 		return
